@@ -102,7 +102,8 @@ def valid_statuses(action: int):
 
 
 def st_entity_tlv():
-    return st.sampled_from(WIDTHS).flatmap(lambda w: uint(8 * w).map(lambda v: {"t": "entity", "id": v.to_bytes(w, "big").hex()}))
+    # an entity id in a TLV is 1..8 octets long (727.0-B-5 5.4.6); the header of THIS library knows the widths 1, 2, 4, 8 only, its TLV any
+    return st.sampled_from(WIDTHS + WIDTHS + (3, 5, 6, 7)).flatmap(lambda w: uint(8 * w).map(lambda v: {"t": "entity", "id": v.to_bytes(w, "big").hex()}))
 
 
 def st_flow_tlv(maxlen=32):
